@@ -16,11 +16,12 @@ Definition gi_child_ok (ch : list node) : bool :=
 Definition stat_used (c : cfg) : bool :=
   existsb (fun e => match c_statreq c e with Some _ => true | None => false end) (c_exts c).
 
-(* no lazy-stat fault under a size limit, no unreadable .gitignore under UseGitignore: the two fault sites whose
-   error the engine returns from handleFile (see the _refuted theorems) *)
+(* no unreadable .gitignore under UseGitignore (the one fault site whose error handleFile still returns when
+   filesystem errors are not fatal, see the _refuted theorem); no Stat fault on a file when some FileRequired
+   consults api.Stat() (the loss is then per extractor) or when errors are fatal under a size limit *)
 Fixpoint tree_quiet (c : cfg) (nd : node) : bool :=
   match nd with
-  | File _ _ _ _ ff => negb (ff_stat ff && ((0 <? c_max_size c)%Z || stat_used c))
+  | File _ _ _ _ ff => negb (ff_stat ff && (stat_used c || (c_fatal c && (0 <? c_max_size c)%Z)))
   | Dir _ ch _ =>
       (negb (c_gitignore c) || gi_child_ok ch) &&
       (fix go (l : list node) : bool := match l with [] => true | c1 :: l' => tree_quiet c c1 && go l' end) ch
@@ -44,24 +45,28 @@ Definition listed (ch : list node) (df : dfault) : list node :=
   match df_read_at df with None => ch | Some k => firstn k ch end.
 
 (* the entry reached by following segs below nd is not lost to a fault: every directory on the way opens and
-   lists the next segment before its read failure; the entry itself, if a file, opens and stats *)
-Fixpoint survives (nd : node) (segs : list N) : bool :=
+   lists the next segment before its read failure; the entry itself, if a file, opens and stats (and can be
+   stat'ed for the size check when a size limit is set) *)
+Fixpoint survives (c : cfg) (nd : node) (segs : list N) : bool :=
   match segs with
-  | [] => match nd with File _ _ _ _ ff => negb (ff_open ff) && negb (ff_fstat ff) | Dir _ _ _ => true end
+  | [] => match nd with
+          | File _ _ _ _ ff => negb (ff_open ff) && negb (ff_fstat ff) && negb ((0 <? c_max_size c)%Z && ff_stat ff)
+          | Dir _ _ _ => true
+          end
   | s :: rest =>
       match nd with
       | File _ _ _ _ _ => false
       | Dir _ ch df =>
           negb (df_open df) &&
           match find_child s (listed ch df) with
-          | Some c1 => survives c1 rest
+          | Some c1 => survives c c1 rest
           | None => false
           end
       end
   end.
 
 (* ... and the root itself can be stat'ed *)
-Definition not_lost (t : node) (p : list N) : bool := negb (node_stat_fails t) && survives t (spath p).
+Definition not_lost (c : cfg) (t : node) (p : list N) : bool := negb (node_stat_fails t) && survives c t (spath p).
 
 (* the visits a walk needs: handleFile invocations, second calls included *)
 Definition visits_needed (c : cfg) (t : node) : nat :=
